@@ -762,6 +762,9 @@ func main() {
 	b.WriteString("/-- the loop around it: what is ranged over, the guard that skips an index, how `command` is made, what the stdin condition is -/\ndef hookLoop : List String := " + leanList(hg) + "\n\n")
 	/* how jtp reads from the connection */
 	b.WriteString("/-- every method called on a *bufio.Reader variable in jtp/jtp.go, with its arguments, and what the JSON decoder is built on, in source order -/\ndef jtpReads : List String := " + leanList(jtpReads(parseFile(root, "jtp/jtp.go"))) + "\n\n")
+	/* how the TLS connection is made, and whether the accessors ever write to the document */
+	b.WriteString("/-- the arguments of every tls.Dial* call in jtp/jtp.go (a nil config: Go's defaults, no client session cache, no client certificate) -/\ndef tlsDialArgs : List String := " + leanList(tlsDialArgs(parseFile(root, "jtp/jtp.go"))) + "\n\n")
+	b.WriteString(fmt.Sprintf("/-- assignments through an index expression (`m[k] = v`, `m[k] += v`, …) and delete() calls in object/object.go -/\ndef objectMapWrites : Nat := %d\n\n", mapWrites(parseFile(root, "object/object.go"))))
 	/* the decision skeleton of config.postprocess */
 	b.WriteString("/-- every top-level statement of config.postprocess, in order: conversions, rejections (with the key named in the message), early acceptance, anything else -/\ndef postprocessSkeleton : List String := " + leanList(postprocessSkeleton(parseFile(root, "config/config.go"))) + "\n\n")
 	b.WriteString("end Generated\n")
@@ -1079,4 +1082,47 @@ func jtpReads(f *ast.File) []string {
 		return true
 	})
 	return out
+}
+
+func tlsDialArgs(f *ast.File) []string {
+	out := []string{}
+	ast.Inspect(f, func(n ast.Node) bool {
+		if ce, ok := n.(*ast.CallExpr); ok {
+			if se, ok := ce.Fun.(*ast.SelectorExpr); ok {
+				if id, ok := se.X.(*ast.Ident); ok && id.Name == "tls" && strings.HasPrefix(se.Sel.Name, "Dial") {
+					args := []string{}
+					for _, a := range ce.Args {
+						args = append(args, exprFull(a))
+					}
+					out = append(out, se.Sel.Name+"("+strings.Join(args, ", ")+")")
+				}
+			}
+		}
+		return true
+	})
+	return out
+}
+
+func mapWrites(f *ast.File) int {
+	n := 0
+	ast.Inspect(f, func(nd ast.Node) bool {
+		switch x := nd.(type) {
+		case *ast.AssignStmt:
+			for _, l := range x.Lhs {
+				if _, ok := l.(*ast.IndexExpr); ok {
+					n++
+				}
+			}
+		case *ast.IncDecStmt:
+			if _, ok := x.X.(*ast.IndexExpr); ok {
+				n++
+			}
+		case *ast.CallExpr:
+			if id, ok := x.Fun.(*ast.Ident); ok && id.Name == "delete" {
+				n++
+			}
+		}
+		return true
+	})
+	return n
 }
